@@ -73,10 +73,11 @@ theorem shaAbs_split (A : ShaAbs) (a b : List UInt8) (hl : A.len < 1844674407370
 def shaAbsChecksum (a : ShaAbs) : List UInt8 :=
   let bufLen := a.pending.length
   let lengthInBits := (a.len * 8) % 18446744073709551616
+  let h0 := shaH0 a.len a.ovf a.h     -- `checksum_bitvec256` starts from INITIAL_SHA256_H while nothing was absorbed
   if bufLen < 56 then
-    shaDigestBytes (shaCompress a.h (a.pending ++ [0x80] ++ List.replicate (55 - bufLen) 0 ++ be64 lengthInBits))
+    shaDigestBytes (shaCompress h0 (a.pending ++ [0x80] ++ List.replicate (55 - bufLen) 0 ++ be64 lengthInBits))
   else
-    shaDigestBytes (shaCompress (shaCompress a.h (a.pending ++ [0x80] ++ List.replicate (63 - bufLen) 0))
+    shaDigestBytes (shaCompress (shaCompress h0 (a.pending ++ [0x80] ++ List.replicate (63 - bufLen) 0))
       (List.replicate 56 0 ++ be64 lengthInBits))
 
 theorem sha_checksum_abs (s : ShaHasher) (hi : s.Inv) : s.checksum = shaAbsChecksum s.abs := by
@@ -109,12 +110,20 @@ theorem sha256_split (s : ShaHasher) (hi : s.Inv) (a b : List UInt8)
     exact shaAbs_split s.abs a b hi.lenlt (sha_abs_fresh s hi) hab
   exact ⟨key, by rw [sha_checksum_abs _ i2, sha_checksum_abs _ i3, key]⟩
 
-/-- **However the bytes are split** (at least one call): the digest after any sequence of update
-    calls on a fresh hasher is the digest after one call with the concatenation. -/
-theorem sha256_any_split (p0 : List UInt8) (parts : List (List UInt8))
-    (hlen : (p0 :: parts).flatten.length < 18446744073709551616) :
-    ((p0 :: parts).foldl ShaHasher.update {}).checksum
-      = (ShaHasher.update {} (p0 :: parts).flatten).checksum := by
+/-- ZERO `update` calls: `checksum_bitvec256` of a hasher that was only initialised (h0 ..= h7 still zero) equals
+    the digest after one `update` with the empty string (before fixes/C07-sha256-zero-updates.patch it hashed the
+    padding block from the all-zero chaining value). -/
+theorem sha256_zero_updates : ({} : ShaHasher).checksum = (ShaHasher.update {} []).checksum := by
+  rw [sha_checksum_abs _ sha_init_inv, sha_checksum_abs _ (sha_update_abs {} [] sha_init_inv).2,
+    (sha_update_abs {} [] sha_init_inv).1]
+  simp [ShaHasher.abs, ShaAbs.update, shaAbsChecksum, shaH0, shaUpBlocks_lt]
+
+/-- **However the bytes are split**: the digest after EVERY sequence of update calls on a fresh hasher —
+    including the empty sequence — is the digest after one call with the concatenation. -/
+theorem sha256_any_split (parts : List (List UInt8))
+    (hlen : parts.flatten.length < 18446744073709551616) :
+    (parts.foldl ShaHasher.update {}).checksum
+      = (ShaHasher.update {} parts.flatten).checksum := by
   have key : ∀ (ps : List (List UInt8)) (s : ShaHasher) (q : List UInt8), s.Inv →
       (q ++ ps.flatten).length < 18446744073709551616 →
       (ps.foldl ShaHasher.update (s.update q)).abs = (s.update (q ++ ps.flatten)).abs ∧
@@ -147,13 +156,18 @@ theorem sha256_any_split (p0 : List UInt8) (parts : List (List UInt8))
           exact ihy _ _ j1 j2 (by rw [a1, a2, he])
       obtain ⟨fa, fi⟩ := foldAbs ps _ _ i2 i3 hsp
       exact ⟨by rw [fa, step.1, List.append_assoc], fi⟩
-  simp only [List.foldl_cons, List.flatten_cons]
-  simp only [List.flatten_cons] at hlen
-  obtain ⟨ka, ki⟩ := key parts {} p0 sha_init_inv hlen
-  rw [sha_checksum_abs _ ki, sha_checksum_abs _ (sha_update_abs {} _ sha_init_inv).2, ka]
+  cases parts with
+  | nil => exact sha256_zero_updates
+  | cons p0 parts =>
+    simp only [List.foldl_cons, List.flatten_cons]
+    simp only [List.flatten_cons] at hlen
+    obtain ⟨ka, ki⟩ := key parts {} p0 sha_init_inv hlen
+    rw [sha_checksum_abs _ ki, sha_checksum_abs _ (sha_update_abs {} _ sha_init_inv).2, ka]
 
 example : ((ShaHasher.update {} [1, 2]).update [3]).checksum = (ShaHasher.update {} [1, 2, 3]).checksum :=
-  sha256_any_split [1, 2] [[3]] (by decide)
+  sha256_any_split [[1, 2], [3]] (by decide)
+
+example : ({} : ShaHasher).checksum = (ShaHasher.update {} []).checksum := sha256_any_split [] (by decide)
 
 theorem be64_length (v : Nat) : (be64 v).length = 8 := by simp [be64]
 
@@ -167,12 +181,22 @@ theorem sha_fresh_update_abs (x : List UInt8) :
 
 /-- **The buffering + padding state machine computes FIPS 180-4 SHA-256** (relative to the compression
     function): one `update` with the whole message, then `checksum`, is `sha256Spec`. -/
-theorem sha256_checksum_eq_spec (x : List UInt8) :
+theorem sha256_checksum_eq_spec (x : List UInt8) (hx64 : x.length < 18446744073709551616) :
     (ShaHasher.update {} x).checksum = sha256Spec x := by
   have hinv := (sha_update_abs {} x sha_init_inv).2
   rw [sha_checksum_abs _ hinv, sha_fresh_update_abs]
+  -- `checksum_bitvec256` restarts from the initial hash value only when nothing was absorbed, and then the
+  -- chaining value IS the initial hash value
+  have hstart : shaH0 (x.length % 18446744073709551616) false (shaUpBlocks shaInit x).1
+      = (shaUpBlocks shaInit x).1 := by
+    unfold shaH0
+    by_cases hz : x.length % 18446744073709551616 = 0
+    · have hnil : x = [] := List.eq_nil_of_length_eq_zero (by omega)
+      subst hnil
+      simp [shaUpBlocks_lt]
+    · simp [hz]
   unfold shaAbsChecksum sha256Spec shaPad
-  simp only []
+  simp only [hstart]
   have hp := shaUpBlocks_rem' shaInit x
   generalize hr : shaUpBlocks shaInit x = r at hp
   obtain ⟨h, p⟩ := r
@@ -214,11 +238,11 @@ theorem sha256_checksum_eq_spec (x : List UInt8) :
     rw [shaUpBlocks_ge _ _ (by omega), List.take_of_length_le (by omega), List.drop_of_length_le (by omega),
       shaUpBlocks_lt _ [] (by simp)]
 
-/-- **sha256, however the bytes are split** (at least one call): the digest equals the FIPS 180-4 structure
-    (padding, 64-byte blocks) over the compression function. -/
-theorem sha256_any_split_eq_spec (p0 : List UInt8) (parts : List (List UInt8))
-    (hlen : (p0 :: parts).flatten.length < 18446744073709551616) :
-    ((p0 :: parts).foldl ShaHasher.update {}).checksum = sha256Spec (p0 :: parts).flatten := by
-  rw [sha256_any_split p0 parts hlen, sha256_checksum_eq_spec]
+/-- **sha256, however the bytes are split** (every sequence of update calls, the empty one included): the digest
+    equals the FIPS 180-4 structure (padding, 64-byte blocks) over the compression function. -/
+theorem sha256_any_split_eq_spec (parts : List (List UInt8))
+    (hlen : parts.flatten.length < 18446744073709551616) :
+    (parts.foldl ShaHasher.update {}).checksum = sha256Spec parts.flatten := by
+  rw [sha256_any_split parts hlen, sha256_checksum_eq_spec _ hlen]
 
 end WuffsVerif.Props.C07
